@@ -80,7 +80,7 @@ int main(int argc, char** argv) {
     const ld tolS = geodtab::tol_series(E), tolX = geodtab::tol_exact(E);
     for (size_t li = 0; li < lats.size(); ++li) for (size_t ai = 0; ai < azis.size(); ++ai) {
       if (!ctx.take()) continue;
-      if (!ge) { if (E.series) gs.reset(new Geodesic(E.a, E.f)); ge.reset(new GeodesicExact(E.a, E.f)); gx.reset(new Geodesic(E.a, E.f, true)); }
+      { if (E.series) gs.reset(new Geodesic(E.a, E.f)); ge.reset(new GeodesicExact(E.a, E.f)); gx.reset(new Geodesic(E.a, E.f, true)); }   // fresh objects in every unit: a unit is self-contained (replay)
       const double lat1 = lats[li], azi1 = azis[ai];
       // ---- oracle: one forward and one backward trajectory through all lengths
       std::vector<Len> L;
@@ -239,7 +239,7 @@ int main(int argc, char** argv) {
       std::unique_ptr<Geodesic> gs, gx; std::unique_ptr<GeodesicExact> ge;
       for (size_t li = 0; li < lats.size(); ++li) {
         if (!ctx.take()) continue;
-        if (!ge) { if (E.series) gs.reset(new Geodesic(E.a, E.f)); ge.reset(new GeodesicExact(E.a, E.f)); gx.reset(new Geodesic(E.a, E.f, true)); }
+        { if (E.series) gs.reset(new Geodesic(E.a, E.f)); ge.reset(new GeodesicExact(E.a, E.f)); gx.reset(new Geodesic(E.a, E.f, true)); }   // fresh objects in every unit: a unit is self-contained (replay)
         for (size_t ai = 0; ai < azis.size(); ++ai) for (double a12 : arcs) for (int sv = 0; sv < 3; ++sv) for (int form = 0; form < 2; ++form) {
           if (sv == 0 && !E.series) continue;
           Ctx::Case cs(ctx);
@@ -289,7 +289,7 @@ int main(int argc, char** argv) {
       std::unique_ptr<GeodesicExact> ge; std::unique_ptr<Geodesic> gx;
       for (size_t li = 0; li < lats.size(); ++li) for (size_t ai = 0; ai < azis.size(); ++ai) {
         if (!ctx.take()) continue;
-        if (!ge) { ge.reset(new GeodesicExact(a, f)); gx.reset(new Geodesic(a, f, true)); }
+        { ge.reset(new GeodesicExact(a, f)); gx.reset(new Geodesic(a, f, true)); }   // fresh objects in every unit
         const double lat1 = lats[li], azi1 = azis[ai], lon1 = 10;
         const double big = std::fmax(a, a * ba);
         for (double a12 : arcs) {
